@@ -866,7 +866,7 @@ pub fn case_strategy(mode: &'static str) -> impl Strategy<Value = Case> {
         tape_strategy(60),
         tape_strategy(300),
         tape_strategy(90),
-        tape_strategy(400),
+        tape_strategy(640),
         0u8..8,
     )
         .prop_map(move |(p, t, x, ev, sd, bits)| {
